@@ -29,6 +29,7 @@ import time
 from concurrent.futures import ThreadPoolExecutor
 
 VERIF = os.path.dirname(os.path.dirname(os.path.abspath(__file__)))
+REPO = os.environ.get('TORCHTREE_REPO', '/repo')
 LINE = re.compile(r'^(?P<file>.*?):(?P<line>\d+): (?P<kind>info|error|warning): (?P<msg>.*)$')
 
 #: conditions whose refutation is a property violation (after replay); base name -> clause text
@@ -107,7 +108,7 @@ def plan(tier, postorder=True):
             for a, b in chunks(3, 'thorough', 3):
                 add(['tips3'], mode=mode, timeout=T, klo=a, khi=b)
             add(['iso3', 'iso4'], mode=mode, timeout=T, sel='quick')
-        for a, b in chunks(4, 'thorough', 5):  # all 120 (tip order, ordered shape) pairs of 4 taxa
+        for a, b in chunks(4, 'thorough', 2):  # all 4! tip orders, 32 (tip order, ordered shape) pairs
             add(['tips4'], timeout=T, klo=a, khi=b)
         for a, b in chunks(4, 'quick', 2):
             add(['tips4'], mode='int', timeout=T, klo=a, khi=b, sel='quick')
@@ -118,6 +119,8 @@ def plan(tier, postorder=True):
             add(['named3'], timeout=T, klo=a, khi=b)
         for a, b in chunks(3, 'thorough', 2):
             add(['hfb3'], timeout=T, klo=a, khi=b)
+    # longest first (tips4 / named3 / hfb3 dominate)
+    jobs.sort(key=lambda j: -({'tips4': 5, 'named3': 4, 'hfb3': 3, 'tips3': 2}.get(j['fns'][0], 0)))
     return jobs
 
 
@@ -127,7 +130,7 @@ def crosshair(job, spans):
     env.update({'C06D_MODE': job['mode'], 'C06D_KLO': str(job['klo']), 'C06D_KHI': str(job['khi']),
                 'C06D_TIER': job['sel'], 'C06D_REALS': '1', 'CROSSHAIR_ONLY_FINITE_FLOATS': '1',
                 'PYTHONWARNINGS': 'ignore'})
-    env['PYTHONPATH'] = f'{VERIF}:/repo' + (':' + env['PYTHONPATH'] if env.get('PYTHONPATH') else '')
+    env['PYTHONPATH'] = f'{VERIF}:{REPO}' + (':' + env['PYTHONPATH'] if env.get('PYTHONPATH') else '')
     env.pop('C06D_ACTIVE', None)
     t = job['timeout']
     cmd = [sys.executable, '-m', 'chk.c06_dates_xh', 'check', '--report_all', '--per_condition_timeout', str(t),
@@ -228,7 +231,7 @@ def concrete(H, r):
         import torchtree.evolution.tree_model as TM
 
         t = tree_of(H, n, sel, a[-1])
-        names = [f't{i}_{H.NAME_VALUES[a[i]]}' for i in range(n)]
+        names = [f't{i}_{H.name_values(sel)[a[i]]}' for i in range(n)]
         nwk = H.newick_of(t, names)
         tree = dendropy.Tree.get(data=nwk, schema='newick', preserve_underscores=True, rooting='force-rooted')
         oldest = TM.setup_dates(tree, True)
@@ -274,7 +277,7 @@ def judge(H, r, val):
     if base == 'shift':
         return [('heights-change-under-common-shift', H.p_equal(val[0], val[1]))]
     if base == 'named':
-        return [('name-dates-convention', H.p_named(H.name_dates(a[:n]), val))]
+        return [('name-dates-convention', H.p_named([float(H.name_values(r['sel'])[i]) for i in a[:n]], val))]
     if base == 'hfb':
         t = tree_of(H, n, r['sel'], a[-1])
         return [('parent-not-older-than-child', H.p_hfb(t, d, [a[n]] + list(H.BL3), val, tol=1e-9))]
@@ -311,11 +314,13 @@ def run(tr, tier='quick', postorder=True):
     tr.bounds['dates: date values'] = (f'mode float: every real number in [0, {H.DMAX}] per taxon (ties, zeros, isochronous and heterochronous '
                                        f'vectors included); mode int: every Python int in [0, {H.DMAX}] (dates as a JSON file gives them: 2000)')
     tr.bounds['dates: newick tip orders'] = (f'symbolic choice k among {n3} (3 taxa: all 3! tip orders x 2 ordered shapes) and {n4} '
-                                             f'(4 taxa: {"all 4! tip orders x 5 ordered shapes" if n4 == 120 else "8 of the 120 tip order x ordered shape pairs"}) '
+                                             f'(4 taxa: {"all 4! tip orders, 32 of the 120 tip order x ordered shape pairs" if tier == "thorough" else "8 of the 120 tip order x ordered shape pairs"}) '
                                              'newick strings' + ('' if tier == 'thorough' else '; quick runs 2 of the 8 four-taxon strings'))
-    tr.bounds['dates: setup_dates'] = f'3 taxa, date string after the last "_" of each name chosen symbolically from {H.NAME_VALUES if tier == "quick" else ["0", "0.0", "1.5", "3", "2000", "2000.25"]}'
-    tr.bounds['dates: heights_from_branch_lengths'] = (f'3 taxa, symbolic dates, first newick length any real in [0, {H.BMAX}], the other three fixed to '
-                                                      f'{H.BL3} (below / above eps); default eps')
+    tr.bounds['dates: setup_dates'] = f'3 taxa, date string after the last "_" of each name chosen symbolically from {H.name_values(tier)}'
+    some = '1 of the 12' if tier == 'quick' else 'all 12'
+    tr.bounds['dates: setup_dates'] += f'; {some} newick strings'
+    tr.bounds['dates: heights_from_branch_lengths'] = (f'3 taxa ({some} newick strings), symbolic dates, first newick length any real in '
+                                                      f'[0, {H.BMAX}], the other three fixed to {H.BL3} (below / above eps); default eps')
     tr.assumptions |= {
         'dates sub-check: CrossHair float model restricted to real numbers (launcher chk/c06_dates_xh.py removes the IEEE-754 alternative, '
         'which z3 cannot decide here, and the "unknown" cap CrossHair puts on real-modelled floats): "Confirmed over all paths" = confirmed '
@@ -440,8 +445,11 @@ def notes_convention(tr, H):
         tr.notes.append('dates: convention boundary on the real model (documented behaviour, not a violation): a date vector whose smallest '
                         'entry is exactly 0 is read as ages, so calendar-like [0, 5, 2] puts the most recent sample (date 5) at height 5, '
                         'while [1e-9, 5, 2] puts it at height 0: ' + ' | '.join(ex))
-        import torchtree.evolution.tree_model as TM
-
+        d = [1e-20, 2e-20, 2020.0]
+        m = H.build_model(t, 3, d)
+        tr.witness_runs += 1
+        tr.notes.append(f'dates: float64 rounding (outside the real-number model, not reported): distinct calendar dates {d} -> sampling_times '
+                        f'{m.sampling_times.tolist()} (tie in heights without a tie in dates; needs dates closer than one ulp of max - date)')
         d = [-1.0, 0.0, -0.5]
         m = H.build_model(t, 3, d)
         tr.witness_runs += 1
@@ -453,7 +461,7 @@ def notes_convention(tr, H):
 
 
 if __name__ == '__main__':
-    sys.path[:0] = [VERIF, '/repo']
+    sys.path[:0] = [VERIF, REPO]
     from vlib.core import TaskResult
 
     tier_ = sys.argv[1] if len(sys.argv) > 1 else 'quick'
